@@ -224,7 +224,7 @@ def ctrlLine (st : KState) (e : SExp) : KState × String :=
             let evOk := !st.wasReady || st.lossy || (match replayObjs ievs before with
               | some m' => sameObjSet m' cache
               | none => false)
-            if !evOk then fail s!"reject C02/C03 subscriber events {showEvs ievs} do not lead from {showObjs before} to {showObjs cache}"
+            if !evOk then fail s!"reject C02/C03/C05 subscriber events {showEvs ievs} do not lead from {showObjs before} to {showObjs cache}"
             else
               -- C04: every watch resumes from a version the controller has actually reached
               -- (after an overflow the watcher's resume version has moved past the lost changes)
